@@ -265,11 +265,10 @@ static var Range_Iter_Init(var self) {
 static var Range_Iter_Last(var self) {
   struct Range* r = self;
   struct Int* i = r->value;
-  if (r->step == 0) { return Terminal; }
-  if (r->step  > 0) { i->val = r->stop-1; }
-  if (r->step  < 0) { i->val = r->start; }
-  if (r->step  > 0 and i->val < r->start) { return Terminal; }
-  if (r->step  < 0 and i->val >= r->stop) { return Terminal; }
+  int64_t n = (int64_t)len(self);
+  if (n is 0) { return Terminal; }
+  if (r->step  > 0) { i->val = r->start  + (n-1) * r->step; }
+  if (r->step  < 0) { i->val = r->stop-1 + (n-1) * r->step; }
   return i;
 }
 
